@@ -111,35 +111,47 @@ def load_exceptions():
     return json.load(open(os.path.join(VERIF, 'tables', 'exceptions.json')))
 
 
-def forwarding_shape(f, scalar, slot):
-    """API template body is `return masa_master<S>().get_ms().SLOT(params in order)`"""
-    st = flat_stmts(f.body)
-    if len(st) != 1 or st[0].get('k') != 'return':
-        return False, 'body is not a single return statement'
-    c = strip(st[0]['e'])
-    if c.get('k') != 'call' or 'obj' not in c:
-        return False, 'returned expression is not a member call'
-    if c.get('rec') != cat.BASE % scalar:
-        return False, 'callee belongs to %s' % c.get('rec')
-    if not c.get('virt'):
-        return False, 'callee %s is not virtual' % c.get('q')
-    if c['n'] != slot:
-        return False, 'forwards to slot %s, the name map assigns %s' % (c['n'], slot)
-    if c['sig'].replace(' const', '') != f.sig:
-        return False, 'forwards to overload `%s`, entry point is `%s`' % (c['sig'], f.sig)
-    g = strip(c['obj'])
-    if not (g.get('k') == 'call' and g.get('n') == 'get_ms' and 'MasterMS<%s>' % scalar in g.get('rec', '')):
-        return False, 'object is not masa_master<%s>().get_ms()' % scalar
-    mm = strip(g['obj'])
-    if not (mm.get('k') == 'call' and mm.get('q', '').endswith('masa_master<%s>' % scalar)):
-        return False, 'registry is `%s`, expected masa_master<%s>()' % (show(mm), scalar)
-    if len(c['args']) != len(f.params):
-        return False, 'passes %d arguments, has %d parameters' % (len(c['args']), len(f.params))
-    for i, a in enumerate(c['args']):
-        if not is_param(a, i):
-            return False, 'argument %d is `%s`, expected parameter `%s`' % (i + 1, show(a), f.params[i]['n'])
-    if any(True for _ in nodes(f.body, 'cast')):
-        return False, 'a conversion occurs in the forwarding call'
+def forwarding_shape(f, scalar, slot, prog=None):
+    """The entry point, evaluated with its callees inlined (registry accessor, get_ms, helpers, named temporaries), has exactly
+    one returning path; on it the only effect is one virtual call SLOT(parameters in order, unconverted) on the solution the
+    selection pointer of the Scalar registry designates, and the value returned is the value of that call."""
+    from .. import api, terms
+    E, paths = api.evaluate(prog, f, scalar)
+    ptr = api.pointer_path(prog, scalar)
+    good = [o for o in paths if o.kind != 'exit']
+    if len(good) != 1:
+        return False, 'has %d returning paths, expected one' % len(good)
+    o = good[0]
+    evs = api.flat(o.events)
+    base_q = cat.BASE % scalar + '::'
+    sol_calls = [e for e in evs if e[0] == 'call' and e[1][0].startswith(base_q)]
+    if len(sol_calls) != 1:
+        return False, 'calls %d members of the solution object, expected exactly the slot %s' % (len(sol_calls), slot)
+    q, args, objt, sig, virt = sol_calls[0][1][:5]
+    if q != base_q + slot:
+        return False, 'forwards to slot %s, the name map assigns %s' % (q.split('::')[-1], slot)
+    if not virt:
+        return False, 'callee %s is not virtual' % q
+    if (sig or '').replace(' const', '') != f.sig:
+        return False, 'forwards to overload `%s`, entry point is `%s`' % (sig, f.sig)
+    if objt != ('sym', ptr + '*'):
+        other = [r for sc2, r in api.registry_globals(prog).items() if objt is not None and r in terms.fmt(objt)]
+        return False, 'object is not masa_master<%s>().get_ms() (it is `%s`)' % (scalar, terms.fmt(objt)[:70] if objt else None)
+    want = tuple(('sym', p['n']) for p in f.params)
+    if tuple(args) != want:
+        if len(args) != len(want):
+            return False, 'passes %d arguments, has %d parameters' % (len(args), len(want))
+        i = [k for k in range(len(want)) if args[k] != want[k]][0]
+        return False, 'argument %d is `%s`, expected parameter `%s` unchanged' % (i + 1, terms.fmt(args[i])[:50], f.params[i]['n'])
+    if o.ret != ('call', 'repo:' + slot, tuple(args)):
+        return False, 'returns `%s`, not the value of the slot call' % (terms.fmt(o.ret)[:60] if o.ret else None)
+    extra = [e for e in evs if e[0] in ('write', 'write-through', 'store', 'print', 'new', 'delete', 'terminate', 'throw') or
+             (e[0] == 'call' and e is not sol_calls[0])]
+    if extra:
+        return False, 'has another effect on the returning path: %s at %s' % (extra[0][0], extra[0][2])
+    for n in nodes(f.body, 'cast'):
+        if n.get('ck') in ('FloatingCast', 'FloatingToIntegral', 'IntegralToFloating', 'IntegralCast', 'FloatingToBoolean'):
+            return False, 'a conversion (%s at %s) occurs in the forwarding function' % (n['ck'], n.get('l'))
     return True, ''
 
 
@@ -174,7 +186,7 @@ def run(ctx, prog, only_grad=False):
             slot = slot_for(f.n)
             if slot is None:
                 raise AnalysisBroken('API function %s has no line in the slot name map' % f.n)
-            ok, why = forwarding_shape(f, scalar, slot)
+            ok, why = forwarding_shape(f, scalar, slot, prog)
             ctx.ob(R('R2'), '%s|%s' % (f.n, f.sig), ok, f.where, '%s(%s): %s' % (f.n, f.sig, why),
                    sample='%s %s -> %s' % (f.n, f.sig, slot))
             if ok and (slot, f.sig) not in bv:
